@@ -2,6 +2,7 @@
 
 mod checks;
 mod common;
+mod conc;
 mod hist;
 mod json;
 mod runner;
